@@ -158,6 +158,10 @@ func vC15TagWalk(rr dns.RR) (string, bool) {
 	}
 	v = v.Elem()
 	t := v.Type()
+	if t.NumField() == 1 && t.Field(0).Anonymous && t.Field(0).Type.Kind() == reflect.Struct {
+		v = v.Field(0) // KEY{DNSKEY}, CDNSKEY{DNSKEY}, SIG{RRSIG}, CDS{DS}, DLV{DS}, NXT{NSEC}: the embedded layout
+		t = v.Type()
+	}
 	if t.NumField() == 0 || t.Field(0).Name != "Hdr" {
 		return "", false
 	}
@@ -173,6 +177,18 @@ func vC15TagWalk(rr dns.RR) (string, bool) {
 		tag := t.Field(i).Tag.Get("dns")
 		switch {
 		case tag == "-":
+		case (tag == "cdomain-name" || tag == "domain-name") && f.Kind() == reflect.Slice: // HIP rendezvous servers
+			ss, ok := f.Interface().([]string)
+			if !ok {
+				return "", false
+			}
+			for _, s := range ss {
+				if !plain(s) {
+					return "", false
+				}
+				parts = append(parts, fmt.Sprintf("[SName %s %s]", vC15CoqName(s), vC15Bool(tag == "cdomain-name")))
+				total += vC15NameLen(s)
+			}
 		case tag == "cdomain-name" || tag == "domain-name":
 			s := f.String()
 			if !plain(s) {
@@ -231,14 +247,43 @@ func vC15TagWalk(rr dns.RR) (string, bool) {
 		case tag == "a":
 			ip, _ := f.Interface().(net.IP)
 			parts = append(parts, "a_steps "+vC15Octets(ip))
-			if len(ip) == 4 || len(ip) == 16 {
+			if len(ip) != 0 {
 				total += 4
 			}
 		case tag == "aaaa":
 			ip, _ := f.Interface().(net.IP)
 			parts = append(parts, "aaaa_steps "+vC15Octets(ip))
-			if len(ip) == 16 {
+			if len(ip) != 0 {
 				total += 16
+			}
+		case tag == "apl": // RFC 3123: family, prefix length, N | AFDLENGTH, the masked address without trailing zero octets
+			ps, ok := f.Interface().([]dns.APLPrefix)
+			if !ok {
+				return "", false
+			}
+			for _, p := range ps {
+				ip, mask := p.Network.IP, p.Network.Mask
+				if len(ip) != len(mask) || (len(ip) != net.IPv4len && len(ip) != net.IPv6len) {
+					parts = append(parts, "[SFail]")
+					continue
+				}
+				prefix, _ := mask.Size()
+				addr := []byte(ip.Mask(mask))[:(prefix+7)/8]
+				for len(addr) > 0 && addr[len(addr)-1] == 0 {
+					addr = addr[:len(addr)-1]
+				}
+				fam := byte(1)
+				if len(ip) == net.IPv6len {
+					fam = 2
+				}
+				n := byte(len(addr)) & 0x7f
+				if p.Negation {
+					n |= 0x80
+				}
+				lit([]byte{0, fam})
+				lit([]byte{byte(prefix)})
+				lit([]byte{n})
+				lit(append([]byte{}, addr...))
 			}
 		case tag == "uint48":
 			x := f.Uint()
